@@ -327,3 +327,14 @@ func VerifNewEventDebouncer(cb func(tags []string)) *VerifDebouncer {
 
 func (v *VerifDebouncer) Debounce(tag string) { v.d.debounce(&statusChangeEventFrame{change: tag}) }
 func (v *VerifDebouncer) Stop()               { v.d.stop() }
+
+// VerifMarkHostDown delivers a DOWN status for the host with the given address, as the event path would.
+func VerifMarkHostDown(s *Session, ip string) {
+	for _, h := range s.ring.allHosts() {
+		if h.ConnectAddress().String() == ip {
+			h.setState(NodeDown)
+			s.policy.HostDown(h)
+			s.pool.removeHost(h.HostID())
+		}
+	}
+}
